@@ -100,6 +100,30 @@ def c05_cases(tier, rng):
             # the same with command and payload in one network segment: the line limiter sits below bufio and
             # sees the payload (recorded finding, see known_findings.json)
             cases.append(c.case(seg="one", rng=rng) + "\tTAG=limiter-sees-payload")
+    # a pipelined next chunk whose payload — with a run without LF longer than the line limit — arrives in the segment of the previous
+    # chunk's tail: when the limit comes back after the first chunk that payload is buffered already, and it is not command lines
+    for lim in (40, 64):
+        for run in (lim + 5, 3 * lim):
+            for last in (b" LAST", b""):
+                c = g.Conv(dict(maxline=lim))
+                c.add(b"EHLO x\r\n"); c.add(b"MAIL FROM:<s@x>\r\n"); c.add(b"RCPT TO:<r@x>\r\n")
+                c.add(b"BDAT 5\r\n", DATA=g.ddec()); c.add(b"hello" + b"BDAT %d%s\r\n" % (run, last) + b"y" * run)
+                c.add(b"BDAT 0 LAST\r\n" if not last else b"NOOP\r\n")
+                markers(c, 1)
+                cases.append(c.case(seg="line", rng=rng))
+    # the backend ends the delivery with an error BETWEEN two chunks (it has read the first chunk completely): the next chunk is refused —
+    # and its declared octets are payload all the same, never commands
+    for p in (b"RSET\r\nMAIL FROM:<bait@x>\r\n", b"MAIL FROM:<bait@x>\r\nRCPT TO:<bait@x>\r\n"):
+        for cfg in (dict(), dict(lmtp=1), dict(lmtp=1, lmtpsess=1)):
+            for last in (b"", b" LAST"):
+                c = g.Conv(cfg)
+                envelope(c, bool(cfg.get("lmtp")))
+                c.add(b"BDAT 5\r\nhello", DATA=g.ddec(want=5, ret=g.se(554, "5.6.0", b"content rejected")))
+                c.add(b"NOOP\r\n")
+                c.add(b"BDAT %d%s\r\n" % (len(p), last) + p)
+                markers(c, 1)
+                for seg in ("line", "one"):
+                    cases.append(c.case(seg=seg, rng=rng))
     # chunks inside TLS: after a successful STARTTLS the chunk must be taken off the TLS stream — also when a chunked transfer (refused,
     # abandoned or completed) took place in plaintext before, and when plaintext was injected behind the STARTTLS line
     for lm in (False, True):
